@@ -413,6 +413,8 @@ def gen_cases(ctx):
         ctx.count('threads', c['threads'])
       for arm in arms_of(c):
         ctx.count('arm', arm)
+      for arm in G.vs_arms(c):
+        ctx.count('value_shape', arm)
       yield c
 
   yield from counted(ctx.corpus(), 'corpus')
@@ -478,12 +480,23 @@ def gen_cases(ctx):
         yield mk_case(specs, items, ignore=ignore)
   yield from counted(wild_r(150 if quick else 3000), 'reserved-names')
 
+  # SC08b (last again): record VALUES that are containers whose shape meets the packing conventions of the operators
+  yield from counted(G.value_shape_cases(mk_case), 'value-shape')
+
+  def rand_vs(n):
+    for _ in range(n):
+      specs, items = G.gen_value_shape_chain(rng)
+      if specs:
+        yield mk_case(specs, items, ignore=rng.random() < 0.2, tag='value-shape:random')
+  yield from counted(rand_vs(400 if quick else 8000), 'value-shape-random')
+
 
 REQUIRED = {
     'operator': ['select', 'apply', 'assign', 'filter', 'batch', 'sink', 'aggregate', 'apply+batch', 'select+batch', 'assign+batch'],
     'key_shape': ['single', 'kwargs', 'tuple0', 'tuple1', 'tuple2', 'tuple3', 'bare-name', 'index', 'path-1', 'path-nested',
                   'path-with-index', 'dict-output-key', 'SELF', 'SKIP', 'LIT'],
-    'class': ['systematic', 'typed', 'wild', 'threads', 'nested-assign', 'builder', 'reserved-names'],
+    'class': ['systematic', 'typed', 'wild', 'threads', 'nested-assign', 'builder', 'reserved-names', 'value-shape', 'value-shape-random'],
+    'value_shape': G.vs_required(),
     'arm': [f'{op}: {what} key with the plain name {s!r}' for s in ('SELF', 'SKIP')
             for op, what in (('select', 'input'), ('select', 'output'), ('apply', 'input'), ('apply', 'output'),
                              ('assign', 'input'), ('assign', 'output'), ('filter', 'input'), ('sink', 'input'))] + ['assign: several keys, one a nested path into an existing container',
@@ -504,8 +517,17 @@ def extra(ctx):
   from harness.core import InfraError
   missing = [f'{h}:{v}' for h, vs in REQUIRED.items() if h != 'outcome' for v in vs if v not in ctx.hist.get(h, {})]
   if missing:
-    raise InfraError(f'generator missed promised classes: {missing}')
+    # what the GENERATOR produced does not depend on the tree under test: always enforced
+    raise InfraError(f'generator missed promised classes: {missing[:40]} ({len(missing)} in all)')
   export_stats(ctx)
+
+
+def verdict_pending():
+  """A disagreement or a new oracle failure was seen by compare() (main process).  The counters below count what the
+  COMPARISON stages got through; a tree that breaks the tie early (e.g. outputs routed into a fresh record) starves
+  them.  A coverage guard must never mask a verdict: the counters are enforced only for a run that is otherwise green
+  (the runner then reports the VIOLATION)."""
+  return sum(STATS.get('verdict', {}).values())
 
 
 def export_stats(ctx):
@@ -514,8 +536,13 @@ def export_stats(ctx):
     for sub, n in h.items():
       ctx.count(k, sub, n)
   from harness.core import InfraError
+  if verdict_pending():
+    ctx.notes.append(f"coverage counters of the comparison stages not enforced: {STATS['verdict']} (a verdict is reported instead)")
+    return
   if not STATS.get('batched_theorem', {}).get('side-conditions hold'):
     raise InfraError('no generated case was inside the domain of the batched refinement theorems')
+  if ctx.pid == 'C08' and STATS.get('fnless_theorem_pyref', {}).get('compared', 0) < 500:
+    raise InfraError('the direct specification of fn-less chains (Ref.fnlessChain) was compared with the Python reference on fewer than 500 cases')
   if ctx.pid == 'C08' and STATS.get('heap_tie', {}).get('records compared', 0) < 100:
     raise InfraError('the heap tie (identity pattern of assign outputs vs Model/PipeHeap.lean) compared fewer than 100 records')
 
@@ -591,7 +618,7 @@ def compare_heap(impl, model):
       return f'record {i}: the heap model and the functional model of _get_outputs differ'
     if hp['written']:
       return f"record {i}: the heap model wrote {hp['written']} pre-existing cells (contradicts C08_assign_no_write)"
-    if hp['out'] != impl['out'][i]:
+    if hp['out'] != _unbool(impl['out'][i]):      # the heap of Model/Tree.lean has int / str / None leaves: a bool is its int
       return f"record {i}: heap model value {jdump(hp['out'])[:200]} / code {jdump(impl['out'][i])[:200]}"
     a, b = sorted(jdump(p) for p in hp['shared']), sorted(jdump(p) for p in sh)
     if a != b:
@@ -599,6 +626,16 @@ def compare_heap(impl, model):
               f'real objects {b}')
     _stat('heap_tie_shared_containers', min(len(a), 4))
   return None
+
+
+def _unbool(j):
+  if isinstance(j, bool):
+    return int(j)
+  if isinstance(j, dict):
+    return {k: _unbool(v) for k, v in j.items()}
+  if isinstance(j, list):
+    return [_unbool(v) for v in j]
+  return j
 
 
 def _multiset(xs):
@@ -642,7 +679,36 @@ def compare_batched(impl, model):
   return None
 
 
+def compare_fnless(impl, model):
+  """Chains of un-batched operators WITHOUT functions: the direct specification `Ref.fnlessChainS` (Model/PipeFnless.lean:
+  the value read under input key i is stored as it is under output key i; no call, no tuple packing; any source) against
+  the Lean model of the code (instances of C08_fnless_chain_any_source: must agree whenever SelfAlone holds) and against
+  the independent Python reference (`ref_route_values`)."""
+  ok = bool(model['fnless_ok'])
+  _stat('fnless_theorem', 'side-conditions hold' if ok else 'outside (SELF first of several keys)')
+  if not ok:
+    return None
+  if model.get('out') != model['fnless_out'] or model.get('err') != model['fnless_err']:
+    return (f"the direct specification Ref.fnlessChainS differs from the Lean model of the code although the side condition of "
+            f"C08_fnless_chain_any_source holds: {jdump(model['fnless_out'])[:200]} / {jdump(model.get('out'))[:200]}")
+  ref = impl.get('pyref') or {}
+  if ref.get('exact') and 'crash' not in ref and ref.get('out') is not None:
+    _stat('fnless_theorem_pyref', 'compared')
+    if ref['out'] != model['fnless_out'] or (ref['err'] is None) != (model['fnless_err'] is None):
+      return f"Ref.fnlessChain and the Python reference differ: py {jdump(ref['out'])[:300]} / lean {jdump(model['fnless_out'])[:300]}"
+  return None
+
+
 def compare(impl, model):
+  d = _compare(impl, model)
+  if d is not None:
+    _stat('verdict', 'disagreement')
+  if isinstance(impl, dict) and impl.get('oracle_new_failure'):
+    _stat('verdict', 'oracle failure outside the known input classes')
+  return d
+
+
+def _compare(impl, model):
   if impl.get('threads'):
     return compare_threads(impl, model)
   if impl.get('build') != model.get('build'):
@@ -667,6 +733,10 @@ def compare(impl, model):
       return f"reference interpreters differ on err: py {ref['err']} / lean {model['ref_err']}"
     if ref['logs'] != model['ref_logs']:
       return 'reference interpreters differ on sink logs'
+  if 'fnless_ok' in model:
+    d = compare_fnless(impl, model)
+    if d is not None:
+      return d
   if 'refb_ok' in model:
     d = compare_batched(impl, model)
     if d is not None:
@@ -750,6 +820,20 @@ def static_invalid(specs):
 
 
 def oracle(case, obs):
+  what = _oracle(case, obs)
+  if what is not None and isinstance(obs, dict) and mark_new_failure(case, what):
+    obs['oracle_new_failure'] = True      # travels to the main process with the observation: see verdict_pending()
+  return what
+
+
+def mark_new_failure(case, what, finding_fn=None):
+  try:
+    return (finding_fn or finding)(case, what) is None
+  except Exception:  # pylint: disable=broad-except
+    return True
+
+
+def _oracle(case, obs):
   inv = static_invalid(case['specs'])
   if obs.get('build') is not None:
     if inv is None and not builder_rule(case['specs']):
